@@ -526,3 +526,83 @@ func ruleNoErrorOverwritten(c *Ctx, rule string) {
 	}
 	c.R.OK(rule, "loops-examined", "", fmt.Sprintf("%d back-edge values of error variables examined", n))
 }
+
+func init() {
+	for _, pid := range []string{"C08", "C11", "C12"} {
+		pid := pid
+		Properties[pid].Rules = append(Properties[pid].Rules, Rule{pid + "/no-type-sensitive-comparison", func(c *Ctx) { ruleNoTypeSensitiveComparison(c, pid+"/no-type-sensitive-comparison") }})
+	}
+	Properties["C08"].Rules = append(Properties["C08"].Rules, Rule{"C08/no-verdict-on-exactness", ruleNoVerdictOnExactness})
+}
+
+// Equality and the hasher never hand a comparison to reflect's own equality (Value.Equal, DeepEqual) or compare
+// the operands as interfaces: those answer false for the same JSON value held in two Go types (a named string
+// against a string). Zero such calls are expected; every one is reported.
+func ruleNoTypeSensitiveComparison(c *Ctx, rule string) {
+	n := 0
+	for _, root := range []*ssa.Function{c.Equality(rule), c.Hasher(rule)} {
+		if root == nil {
+			continue
+		}
+		for _, fi := range c.familyInstrs(root) {
+			n++
+			switch x := fi.I.(type) {
+			case *ssa.Call:
+				switch key := core.CalleeKey(&x.Call); key {
+				case "reflect.Value.Equal", "reflect.DeepEqual":
+					c.R.Bad(rule, core.FuncName(x.Parent())+":"+key, c.pos(x), "the comparison is handed to "+key+", which answers false whenever the Go types differ: a string or boolean of a named type (type Color string) no longer equals the same JSON value decoded as a plain string, so enum and const reject it and uniqueItems misses the duplicate")
+				}
+			case *ssa.BinOp:
+				if (x.Op == token.EQL || x.Op == token.NEQ) && types.IsInterface(x.X.Type()) && !isErrorType(x.X.Type()) {
+					if _, isConst := x.Y.(*ssa.Const); isConst {
+						continue
+					}
+					if _, isConst := x.X.(*ssa.Const); isConst {
+						continue
+					}
+					// reflect.Type comparisons are how kinds of types are told apart; only values (any) matter here
+					if isNamed(x.X.Type(), "reflect", "Type") {
+						continue
+					}
+					c.R.Bad(rule, core.FuncName(x.Parent())+":interface-comparison", c.pos(x), "two interface values are compared with ==: that compares dynamic types as well as values, so the same JSON value in two Go types is unequal")
+				}
+			}
+		}
+	}
+	c.R.OK(rule, "comparisons-examined", "", fmt.Sprintf("%d instructions of equality and the hasher examined: no reflect.Value.Equal, DeepEqual or interface ==", n))
+}
+
+// Whether a number fails multipleOf, minimum ... never depends on whether its conversion to float64 was exact:
+// the second result of big.Rat.Float64 (or big.Float.Float64) is not used in the evaluator. Otherwise a json.Number
+// or a 64-bit integer that float64 cannot hold exactly gets another verdict than the same document decoded plainly.
+func ruleNoVerdictOnExactness(c *Ctx) {
+	const rule = "C08/no-verdict-on-exactness"
+	n := 0
+	for _, fn := range c.Closure(rule, "EV").Sorted() {
+		if !c.P.InPkg(fn) {
+			continue
+		}
+		core.EachInstr(fn, func(i ssa.Instruction) {
+			call, ok := i.(*ssa.Call)
+			if !ok {
+				return
+			}
+			switch core.CalleeKey(&call.Call) {
+			case "math/big.Rat.Float64", "math/big.Rat.Float32", "math/big.Float.Float64", "math/big.Float.Float32", "math/big.Float.Int64", "math/big.Float.Uint64":
+			default:
+				return
+			}
+			n++
+			used := ""
+			if refs := call.Referrers(); refs != nil {
+				for _, r := range *refs {
+					if ex, ok := r.(*ssa.Extract); ok && ex.Index == 1 && ex.Referrers() != nil && len(*ex.Referrers()) > 0 {
+						used = c.pos(ex)
+					}
+				}
+			}
+			c.R.Check(used == "", rule, fmt.Sprintf("%s:exactness#%d", core.FuncName(fn), n), c.pos(call), "the exactness of the conversion is not consulted", "the evaluator consults whether the conversion of the instance to a float was exact: a number that float64 cannot hold exactly (a json.Number such as 0.3, an int64 above 2^53) then gets a different verdict than the same document decoded into float64")
+		})
+	}
+	c.R.Floor(rule, "conversions of an exact number to a float in the evaluator", n, 1)
+}
